@@ -107,6 +107,10 @@ func (k *Keeper) EndBlock(
 			}
 		}
 
+		if err = verifFail("delegation.EndBlock.afterStakerUpdate"); err != nil {
+			logger.Error("verif: injected failure", "error", err)
+			continue
+		}
 		// update the operator state
 		err = k.assetsKeeper.UpdateOperatorAssetState(cc, operatorAccAddress, record.AssetID, assetstypes.DeltaOperatorSingleAsset{
 			PendingUndelegationAmount: recordAmountNeg,
